@@ -3,7 +3,7 @@
    a list of fields (each a list of N: bytes or numbers); the result is a list of N in the same
    canonical serialisation the Go harness prints for the implementation. *)
 From Coq Require Import NArith List Bool.
-From StunV Require Import Base.ListAux Base.Outcome Base.Bytes Model.MsgType.
+From StunV Require Import Base.ListAux Base.Outcome Base.Bytes Base.Slice Model.MsgType Model.Message Model.Rfc.
 Import ListNotations.
 Open Scope N_scope.
 
@@ -21,8 +21,89 @@ Definition run_c19 (sub : N) (args : list (list N)) : list N :=
   | _, _ => bad_case
   end.
 
+(* ---- serialisation helpers ---- *)
+Definition st_code {A} (o : outcome A) : N :=
+  match o with Ok _ => 0 | Err _ => 1 | Panic => 2 | OutOfFuel => 3 end.
+Definition b2n (b : bool) : N := if b then 1 else 0.
+
+(* attribute as [type; len; off; |val|; val...] *)
+Definition ser_attr (a : attr) : list N :=
+  (* the offset of an empty view is not observable in Go (no past-the-end pointers): 0 *)
+  [a_type a; a_len a; if len (a_val a) =? 0 then 0 else a_off a; len (a_val a)] ++ bytes (a_val a).
+Definition ser_attrs (l : list attr) : list N := lenN l :: flat_map ser_attr l.
+(* full projected state of a message: type, length, tid, nil flag, attributes, raw *)
+Definition ser_msg (m : msg) : list N :=
+  [m_meth m; m_class m; m_length m] ++ m_tid m ++ [b2n (m_attrs_nil m)] ++ ser_attrs (m_attrs m)
+  ++ [len (m_raw m)] ++ bytes (m_raw m).
+
+(* a message value whose Raw has visible bytes [vis] followed by [extra] (capacity = both) *)
+Definition msg_with_raw (vis extra : list byte) : msg := set_raw new_msg (slice_of vis extra).
+
+(* C01: decode through an entry point.
+   101 <data> <extra> <[entry]>           entry 0: m.Raw = data (capacity data++extra), m.Decode()
+   101 <data> <prevarr> <[entry; prevlen]> entry 1: copying entry points (Decode(data,m), Write,
+        UnmarshalBinary, GobDecode, CloneTo): m.Raw had backing array prevarr, length prevlen
+        entry 2: ReadFrom, reader holding data
+   result: status :: on success the message (type, length, tid, attributes with offsets, values),
+   and IsMessage(data) *)
+Definition run_c01 (sub : N) (args : list (list N)) : list N :=
+  match sub, args with
+  | 1, [data; extra; [entry; prevlen]] =>
+    let '(m', st) :=
+      match entry with
+      | 0 => decode (msg_with_raw data extra)
+      | 1 => decode_into (set_raw new_msg (mkSlice extra prevlen (lenN extra))) data
+      | _ => read_from (set_raw new_msg (mkSlice extra prevlen (lenN extra))) data
+      end in
+    st_code st ::
+    match st with
+    | Ok _ => [m_meth m'; m_class m'; m_length m'] ++ m_tid m' ++ ser_attrs (m_attrs m')
+              ++ [b2n (is_message (bytes (m_raw m')))]
+    | _ => []
+    end
+  | _, _ => bad_case
+  end.
+
+(* C02 oracle (B): the Spec parser on the same bytes, in the projection the harness prints for the
+   library: accept flag, method, class, length, tid, (type, |value|, value) list *)
+Definition ser_tlvs (tl : list (N * list byte)) : list N :=
+  lenN tl :: flat_map (fun tv => [fst tv; lenN (snd tv)] ++ snd tv) tl.
+Definition run_c02 (sub : N) (args : list (list N)) : list N :=
+  match sub, args with
+  | 1, [data] =>
+    match rfc_parse data with
+    | None => [0]
+    | Some r => [1; r_method r; r_class r; r_length r] ++ r_tid r ++ ser_tlvs (r_tlvs r)
+    end
+  | 2, [data; [t; failat]] =>
+    (* Get / Contains / ForEach on the decoded message; the callback fails at its failat-th call
+       (0 = never).  result: ok; get found, number of attributes not in front of the found one, its value length; contains;
+       lengths of the suffixes the callback saw; error flag; attribute count afterwards *)
+    let '(m', st) := decode (msg_with_raw data []) in
+    match st with
+    | Ok _ =>
+      let g := match get m' t with
+               | None => [0; 0; 0]
+               | Some a => [1; lenN (m_attrs m') - lenN (filter (fun x => a_off x <? a_off a) (m_attrs m')) ; len (a_val a)]
+               end in
+      (* an observer that fails on its failat-th call cannot be a pure function of its argument in
+         general; suffix lengths are strictly decreasing, so "k-th call" is decided by counting the
+         attributes of type t in front of the suffix *)
+      let total := lenN (filter (fun a => a_type a =? t) (m_attrs m')) in
+      let f := fun (suf : list attr) =>
+        let seen := total - lenN (filter (fun a => a_type a =? t) suf) + 1 in
+        negb (seen =? failat) in
+      let '(vs, ok, m'') := foreach m' t f in
+      [1] ++ g ++ [b2n (contains m' t)] ++ [lenN vs] ++ map (fun s => lenN s) vs ++ [b2n ok; lenN (m_attrs m'')]
+    | _ => [0]
+    end
+  | _, _ => bad_case
+  end.
+
 Definition run (cmd : N) (args : list (list N)) : list N :=
   match cmd / 100 with
+  | 1 => run_c01 (cmd mod 100) args
+  | 2 => run_c02 (cmd mod 100) args
   | 19 => run_c19 (cmd mod 100) args
   | _ => bad_case
   end.
